@@ -4,8 +4,9 @@ import Iota.Driver.GenSecp
 import Iota.Driver.GenAddr
 import Iota.Driver.GenBip39
 import Iota.Driver.GenKey
+import Iota.Driver.GenPow2
 
 namespace Iota.Driver
 /-- the model's ops and the ops answered by the generated code -/
-def allOps : List (String × Handler) := modelOps ++ GenCode.ops ++ GenSecp.ops ++ GenAddr.ops ++ GenBip39.ops ++ GenKey.ops
+def allOps : List (String × Handler) := modelOps ++ GenCode.ops ++ GenSecp.ops ++ GenAddr.ops ++ GenBip39.ops ++ GenKey.ops ++ GenPow2.ops
 end Iota.Driver
